@@ -52,6 +52,22 @@ def _log_attr(cls_methods: dict[str, ast.FunctionDef]) -> str:
     raise AnalysisError("undo log attribute not found (list attribute of __init__ iterated by rollback / appended to by add and remove)")
 
 
+def _anchors(methods: dict[str, ast.FunctionDef]) -> tuple[str, str]:
+    """(undo log attribute, wrapped store attribute) - every layer finds them itself: on an equivalent view the engine runs only the layers that have something to show"""
+    log = _log_attr(methods)
+    # wrapped store attribute: the attribute assigned from the ctor parameter
+    init = methods["__init__"]
+    wrapped = None
+    for n in own_nodes(init):
+        if isinstance(n, ast.Assign) and isinstance(n.value, ast.Name) and n.value.id == init.args.args[1].arg:
+            t = n.targets[0]
+            if isinstance(t, ast.Attribute) and isinstance(t.value, ast.Name) and t.value.id == "self":
+                wrapped = t.attr
+    if wrapped is None:
+        raise AnalysisError("wrapped store attribute not found in AuditableStore.__init__")
+    return log, wrapped
+
+
 def _is_log_call(c: ast.AST, log: str, meth: str | None = None) -> bool:
     return (
         isinstance(c, ast.Call)
@@ -85,6 +101,25 @@ def _tuple_tag(t: ast.AST) -> tuple[list[str], str | None]:
     return [], None
 
 
+def _class_lookup(repo: Repo, mod):
+    """expression -> (module, class definition) for a class the module imports from the package (a row class kept in a private module)."""
+    def class_of(e: ast.AST):
+        try:
+            ref = repo.typed.ref(mod.name, e)
+        except Exception:
+            return None
+        if not ref or "." not in ref:
+            return None
+        mname, cname = ref.rsplit(".", 1)
+        try:
+            m2 = repo.mod(mname)
+        except Exception:
+            return None
+        c = m2.defs.get(cname)
+        return (m2, c) if isinstance(c, ast.ClassDef) else None
+    return class_of
+
+
 def run(repo: Repo, rep: Report) -> None:
     rep.extra["explanation"] = EXPLANATION
     mod = repo.mod("rdflib.plugins.stores.auditable")
@@ -92,17 +127,8 @@ def run(repo: Repo, rep: Report) -> None:
     methods = mod.methods(CLS)
     for m in methods:
         rep.analysed("rdflib/plugins/stores/auditable.py:%s.%s" % (CLS, m))
-    log = _log_attr(methods)
-    # wrapped store attribute: the attribute assigned from the ctor parameter
+    log, wrapped = _anchors(methods)
     init = methods["__init__"]
-    wrapped = None
-    for n in own_nodes(init):
-        if isinstance(n, ast.Assign) and isinstance(n.value, ast.Name) and n.value.id == init.args.args[1].arg:
-            t = n.targets[0]
-            if isinstance(t, ast.Attribute) and isinstance(t.value, ast.Name) and t.value.id == "self":
-                wrapped = t.attr
-    if wrapped is None:
-        raise AnalysisError("wrapped store attribute not found in AuditableStore.__init__")
     rep.info["undo_log_attribute"] = log
     rep.info["wrapped_store_attribute"] = wrapped
 
@@ -156,12 +182,14 @@ def run(repo: Repo, rep: Report) -> None:
         floor=2,
     )
     logged_tags: dict[str, set[str]] = {"add": set(), "remove": set()}
+    class_of = _class_lookup(repo, mod)
     for mname in ("add", "remove"):
         m = methods.get(mname)
         if m is None:
             raise AnalysisError("AuditableStore.%s vanished" % mname)
         g = CFG(m)
         params = [a.arg for a in m.args.args[1:]]
+        where = "%s.%s" % (CLS, mname)
         # pattern component names: unpacked from the first parameter
         comps: list[str] = []
         for n in own_nodes(m):
@@ -171,23 +199,24 @@ def run(repo: Repo, rep: Report) -> None:
             raise AnalysisError("AuditableStore.%s: triple parameter is not unpacked into 3 components" % mname)
         mut_calls = [n for n in own_nodes(m) if _wrapped_call(n, wrapped) == mname]
         if not mut_calls:
-            rep.ob("C18.a-mutation-is-logged", mod, "%s.%s" % (CLS, mname), "self.%s.%s(...)" % (wrapped, mname), False,
+            rep.ob("C18.a-mutation-is-logged", mod, where, "self.%s.%s(...)" % (wrapped, mname), False,
                    "%s no longer forwards to the wrapped store" % mname, node=m)
             continue
-        appends = [n for n in own_nodes(m) if _is_log_call(n, log, "append")]
-        removes = [n for n in own_nodes(m) if _is_log_call(n, log, "remove")]
-        others = [n for n in own_nodes(m) if _is_log_call(n, log) and n not in appends and n not in removes]
-        for o in others:
-            rep.ob("C18.b-cancel-or-append", mod, "%s.%s" % (CLS, mname), o, False, "unmodelled log update form", node=o)
+        # the updates of the log, each with the entry it writes as a sequence of component expressions (however the sequence is spelt, vlib/h_c18.Entry)
+        sites = _h.log_sites(mod, m, log, _h.Entries(mod, m, class_of))
+        appends = [s for s in sites if s.kind == "append"]
+        removes = [s for s in sites if s.kind == "remove"]
+        for o in sites:
+            if o.kind not in ("append", "remove"):
+                rep.ob("C18.b-cancel-or-append", mod, where, o.call, False, "unmodelled log update form", node=o.call)
         # log regions: try statements containing a log call; their CFG nodes
         log_nodes = set()
         for c in appends + removes:
-            log_nodes.add(g.node_of(c, mod))
+            log_nodes.add(g.node_of(c.call, mod))
         # for-loops every iteration of which logs: head counts as a pass-through region
         for n in own_nodes(m):
             if isinstance(n, ast.For):
                 h = g.by_ast[id(n)]
-                body_first = n.body[0]
                 # from head's true-successors, can we get back to head avoiding log nodes?
                 back = False
                 for s in g.succ[h]:
@@ -197,45 +226,60 @@ def run(repo: Repo, rep: Report) -> None:
                             back = True
                         elif s not in log_nodes and h in g.reach(s, avoid=log_nodes):
                             back = True
-                if not back and any(g.node_of(c, mod) in g.reach(h) for c in appends):
+                if not back and any(g.node_of(c.call, mod) in g.reach(h) for c in appends):
                     # only loops that contain log calls
-                    if any(any(c is x for x in ast.walk(n)) for c in appends):
+                    if any(any(c.call is x for x in ast.walk(n)) for c in appends):
                         log_nodes.add(h)
         for mc in mut_calls:
             mn = g.node_of(mc, mod)
             ok = g.must_pass_before(mn, log_nodes)
-            rep.ob("C18.a-mutation-is-logged", mod, "%s.%s" % (CLS, mname), mc, ok,
+            rep.ob("C18.a-mutation-is-logged", mod, where, mc, ok,
                    "every path to the wrapped %s passes a log update" % mname if ok else
                    "a path reaches the wrapped %s without any log update: rollback cannot undo it" % mname, node=mc)
-            # (h) same quad
+            # (h) same quad: what the wrapped mutator receives is the triple parameter, or the tuple of the names it was unpacked into, whichever local holds it
             targ = mc.args[0] if mc.args else None
             tcomps = [norm(e) for e in targ.elts] if isinstance(targ, ast.Tuple) else ([norm(targ)] if targ is not None else [])
-            okh = tcomps == comps or tcomps == [params[0]]
-            rep.ob("C18.h-logged-quad-is-mutated-quad", mod, "%s.%s" % (CLS, mname), mc, okh,
+            okh = _h.denotes_triple(m, targ, comps, params[0])
+            rep.ob("C18.h-logged-quad-is-mutated-quad", mod, where, mc, okh,
                    "mutates the unpacked triple %s" % comps if okh else "wrapped %s receives %s, not the logged triple %s" % (mname, tcomps, comps), node=mc)
-        # presence guards
-        guards = []
-        for n in own_nodes(m):
-            if isinstance(n, ast.If) and len(n.body) == 1 and isinstance(n.body[0], ast.Return):
-                if any(isinstance(c, ast.Call) and isinstance(c.func, ast.Attribute) and c.func.attr == "triples" for c in ast.walk(n.test)):
-                    guards.append(n)
+
+        # presence guards: tests that tell whether the wrapped store reports the triple of this call; a log update is `guarded` when it is only reached over edges on which
+        # such a test says `nothing reported` (`if present: return`, `if not present: <log, mutate>`, a flag variable, and/or combinations: the edges count, not the shape)
+        ptests = [t for t in _h.presence_tests(m) if isinstance(t[0], ast.If)]
+
+        def asks_about_the_triple(calls: list[ast.Call]) -> bool:
+            return bool(calls) and all(c.args and _h.denotes_triple(m, c.args[0], comps, params[0]) for c in calls)
+
+        def guarded(at: ast.AST) -> bool:
+            return bool(ptests) and _h.holds_at(mod, m, g, at, None, implies=lambda t, o: _h.absence_implied(m, t, o, asks_about_the_triple))
+
         # wildcard test (remove only)
         wild = None
         for n in own_nodes(m):
             if isinstance(n, ast.If) and isinstance(n.test, ast.Compare) and isinstance(n.test.left, ast.Constant) and n.test.left.value is None \
                     and isinstance(n.test.ops[0], ast.In):
                 wild = n
+
+        def expansion_of(alt: list[ast.expr]):
+            """the loop / comprehension generator that binds the subject, predicate and object of the entry, when they are names bound by one (None: they are not loop variables)"""
+            bs = [_h.binder_of(mod, m, x) if isinstance(x, ast.Name) else None for x in alt[:3]]
+            return bs[0] if bs[0] is not None and all(b is bs[0] for b in bs) else None
+
+        def loop_bound(alt: list[ast.expr]) -> bool:
+            return any(isinstance(x, ast.Name) and _h.binder_of(mod, m, x) is not None for x in alt[:3])
+
+        unguarded_appends = []
         # (b) shape of every append
-        for ap in appends:
-            entry, tag = _tuple_tag(ap.args[0]) if ap.args else ([], None)
-            where = "%s.%s" % (CLS, mname)
-            if tag is None or len(entry) != 4:
+        for site in appends:
+            ap = site.call
+            tag = site.tag
+            if site.entry is None or tag is None or len(site.entry.elts) != 5:
                 rep.ob("C18.b-cancel-or-append", mod, where, ap, False, "log entry is not a 5-tuple ending in a constant tag", node=ap)
                 continue
+            entry = site.entry.text()[:4]
             logged_tags[mname].add(tag)
             okb = False
             why = "append is not in the `except ValueError` arm of a try whose body removes the inverse entry"
-            par = mod.parent.get(id(mod.parent.get(id(ap))))  # Expr -> handler/if
             h = None
             for p in mod.parents(ap):
                 if isinstance(p, ast.ExceptHandler):
@@ -247,8 +291,9 @@ def run(repo: Repo, rep: Report) -> None:
                 tr = mod.parent.get(id(h))
                 exc_ok = h.type is not None and norm(h.type) in ("ValueError",)
                 body_calls = [s for s in tr.body] if isinstance(tr, ast.Try) else []
-                if exc_ok and len(body_calls) == 1 and isinstance(body_calls[0], ast.Expr) and _is_log_call(body_calls[0].value, log, "remove"):
-                    inv_entry, inv_tag = _tuple_tag(body_calls[0].value.args[0])
+                inv = next((r for r in removes if len(body_calls) == 1 and isinstance(body_calls[0], ast.Expr) and r.call is body_calls[0].value), None)
+                if exc_ok and inv is not None:
+                    inv_entry, inv_tag = (inv.entry.text()[:-1], inv.tag) if inv.entry is not None else ([], None)
                     if inv_entry == entry and inv_tag == INVERSE.get(tag):
                         okb = True
                         why = "cancel %r entry for the same quad, else append %r" % (inv_tag, tag)
@@ -260,13 +305,16 @@ def run(repo: Repo, rep: Report) -> None:
                     why = "handler does more than append the undo entry"
             else:
                 # alternative idiom: if inv in log: log.remove(inv) else: log.append(undo)
+                ents = _h.Entries(mod, m, class_of)
                 for p in mod.parents(ap):
                     if isinstance(p, ast.If) and any(ap is x for s in p.orelse for x in ast.walk(s)):
                         t = p.test
                         if isinstance(t, ast.Compare) and isinstance(t.ops[0], ast.In) and norm(t.comparators[0]) == "self." + log:
-                            inv_entry, inv_tag = _tuple_tag(t.left)
+                            inv_e = ents.resolve(t.left)
+                            inv_entry = inv_e.text()[:-1] if inv_e is not None else []
+                            inv_tag = inv_e.elts[-1].value if inv_e is not None and inv_e.elts and isinstance(inv_e.elts[-1], ast.Constant) else None
                             if inv_entry == entry and inv_tag == INVERSE.get(tag) and any(
-                                _is_log_call(x, log, "remove") for s in p.body for x in ast.walk(s)
+                                r.call is x and r.entry is not None and r.entry.text() == inv_e.text() for r in removes for s in p.body for x in ast.walk(s)
                             ):
                                 okb = True
                                 why = "if inverse in log: cancel, else append"
@@ -276,89 +324,84 @@ def run(repo: Repo, rep: Report) -> None:
             # the undo tag must be the inverse of the operation performed
             rep.ob("C18.b-cancel-or-append", mod, where, "undo tag of %s is %r" % (mname, tag), tag == INVERSE[mname],
                    "undo of %s is %s" % (mname, INVERSE[mname]) if tag == INVERSE[mname] else "%s logs undo tag %r instead of %r" % (mname, tag, INVERSE[mname]), node=ap)
-            # (e)/(guard) provenance of the entry's components
-            in_wild = wild is not None and any(ap is x for s in wild.body for x in ast.walk(s))
-            if wild is None:
-                # no split into a wildcard and a single-quad branch: an entry written inside a loop that enumerates the wrapped store is an expanded one
-                encl = next((p for p in mod.parents(ap) if isinstance(p, ast.For)), None)
-                in_wild = encl is not None and any(isinstance(c, ast.Call) and isinstance(c.func, ast.Attribute) and c.func.attr in ("triples", "quads") for c in ast.walk(encl.iter))
-            if in_wild:
-                loop = None
-                for p in mod.parents(ap):
-                    if isinstance(p, ast.For):
-                        loop = p
-                        break
-                oke = False
-                whye = "wildcard-branch log entry is not inside an expansion loop"
-                if loop is not None:
-                    tg = [norm(e) for e in loop.target.elts] if isinstance(loop.target, ast.Tuple) else []
-                    if isinstance(loop.target, ast.Tuple) and loop.target.elts and isinstance(loop.target.elts[0], ast.Tuple):
-                        # the store interface: ((s, p, o), contexts)
-                        tg = [norm(e) for e in loop.target.elts[0].elts]
-                    enumer = any(isinstance(c, ast.Call) and isinstance(c.func, ast.Attribute) and c.func.attr in ("triples", "quads") for c in ast.walk(loop.iter))
-                    pat_ok = all(cmp_ in norm(loop.iter) for cmp_ in comps)
-                    oke = enumer and pat_ok and entry[:3] == tg[:3]
-                    whye = ("entry components %s are the enumerated quads of %s" % (entry[:3], norm(loop.iter)[:60])) if oke else (
-                        "entry %s is not the loop target %s of an enumeration of the removal pattern" % (entry[:3], tg))
-                rep.ob("C18.e-wildcards-expanded", mod, where, ap, oke, whye, node=ap)
-                if loop is not None and oke:
-                    # what is logged must be what will be removed: the enumeration is asked of the object that does the removing, for the same context.
-                    # (`context.triples(...)` of a ConjunctiveGraph context is the union of all graphs, the store removes from the one named graph)
-                    rm = [c for c in own_nodes(m) if isinstance(c, ast.Call) and isinstance(c.func, ast.Attribute) and c.func.attr == "remove" and norm(c.func.value).startswith("self.") and norm(c.func.value) != "self." + log]
-                    en = [c for c in ast.walk(loop.iter) if isinstance(c, ast.Call) and isinstance(c.func, ast.Attribute) and c.func.attr in ("triples", "quads")]
-                    if rm and en:
-                        recv = en[0].func.value
-                        same_obj = norm(recv) == norm(rm[0].func.value)
-                        if isinstance(recv, ast.Call) and norm(recv.func) in ("ConjunctiveGraph", "Dataset") and len(recv.args) == 1 and norm(recv.args[0]) == norm(rm[0].func.value) and len(en[0].args) == 1:
-                            same_obj = True  # the all-contexts view of that store, for a removal from all contexts
-                        same_ctx = len(en[0].args) > 1 and len(rm[0].args) > 1 and norm(en[0].args[1]) == norm(rm[0].args[1])
-                        # an enumeration without a context argument is accepted only where the removal is guarded to have none as well
-                        if len(en[0].args) == 1 and same_obj:
-                            same_ctx = True
-                        oks = same_obj and same_ctx
-                        rep.ob("C18.e-wildcards-expanded", mod, where, "enumeration %s vs removal %s" % (norm(en[0])[:60], norm(rm[0])[:50]), oks,
-                               "the triples logged are those the removing store reports for that context" if oks else
-                               "the undo entries are enumerated from %s but the removal is done by %s: the two can differ (a ConjunctiveGraph context enumerates the union of all graphs), "
-                               "rollback then re-adds triples that were never removed" % (norm(en[0])[:70], norm(rm[0])[:60]), node=en[0])
-            else:
-                an = g.node_of(ap, mod)
-                gn = {g.by_ast[id(x)] for x in guards}
-                okg = bool(gn) and g.must_pass_before(an, gn) and entry[:3] == comps
-                rep.ob("C18.e-wildcards-expanded", mod, where, ap, okg,
-                       "concrete entry %s follows the presence guard" % entry[:3] if okg else
-                       "concrete-branch log entry %s is not dominated by a presence guard that returns on a no-op" % entry[:3], node=ap)
-            # ctx id provenance (h): the fourth component is the identifier of a context: <ctx>.identifier of the context the enumeration reports, or the identifier
-            # of the context passed on, read where that context is known not to be None.  A local stands for what is assigned to it (every assignment, transitively).
-            ctx_expr = entry[3]
-            ctx_node = ap.args[0].elts[3]
-            leaves = _h.leaf_definitions(m, ctx_node)
-            badl = []
-            for lf in leaves:
-                if isinstance(lf, ast.Attribute) and lf.attr == "identifier":
-                    continue
-                good, total = _h.guarded_identifier_reads(lf)
-                if not (total and good == total):
-                    badl.append(norm(lf)[:60])
-            okc = not badl
-            rep.ob("C18.h-logged-quad-is-mutated-quad", mod, where, "logged context id %s" % ctx_expr, okc,
-                   "derived from the context's identifier" if okc else "logged context id %s is not the identifier of the context passed on%s" % (
-                       ctx_expr, "" if badl == [ctx_expr] else " (it can be %s)" % "; ".join(badl)), node=ap)
+            # (e)/(guard) provenance of the entry's components, for every row the entry can stand for
+            in_wild_branch = wild is not None and any(ap is x for s in wild.body for x in ast.walk(s))
+            for alt in site.alts:
+                trip = [norm(x) for x in alt[:3]]
+                if in_wild_branch or loop_bound(alt):
+                    loop = expansion_of(alt)
+                    oke = False
+                    whye = "wildcard-branch log entry is not inside an expansion loop"
+                    en: list[ast.Call] = []
+                    if loop is not None:
+                        tg = _h.target_triple(loop)
+                        en = _h.enumeration_calls(loop.iter)
+                        # the enumeration is asked for the pattern of this call
+                        pat_ok = bool(en) and all(c.args and (_h.denotes_triple(m, c.args[0], comps, params[0]) or all(cmp_ in norm(c.args[0]) for cmp_ in comps)) for c in en)
+                        oke = bool(en) and pat_ok and trip == tg[:3] and len(tg) == 3
+                        whye = ("entry components %s are the enumerated quads of %s" % (trip, norm(loop.iter)[:60])) if oke else (
+                            "entry %s is not the loop target %s of an enumeration of the removal pattern" % (trip, tg))
+                    rep.ob("C18.e-wildcards-expanded", mod, where, ap if len(site.alts) == 1 else "%s for %s" % (norm(ap)[:80], norm(loop.iter if loop is not None else alt[0])[:60]),
+                           oke, whye, node=ap)
+                    if loop is not None and oke:
+                        # what is logged must be what will be removed: the enumeration is asked of the object that does the removing, for the same context.
+                        # (`context.triples(...)` of a ConjunctiveGraph context is the union of all graphs, the store removes from the one named graph)
+                        rm = [c for c in own_nodes(m) if isinstance(c, ast.Call) and isinstance(c.func, ast.Attribute) and c.func.attr == "remove" and norm(c.func.value).startswith("self.") and norm(c.func.value) != "self." + log]
+                        if rm and en:
+                            recv = en[0].func.value
+                            same_obj = norm(recv) == norm(rm[0].func.value)
+                            if isinstance(recv, ast.Call) and norm(recv.func) in ("ConjunctiveGraph", "Dataset") and len(recv.args) == 1 and norm(recv.args[0]) == norm(rm[0].func.value) and len(en[0].args) == 1:
+                                same_obj = True  # the all-contexts view of that store, for a removal from all contexts
+                            same_ctx = len(en[0].args) > 1 and len(rm[0].args) > 1 and norm(en[0].args[1]) == norm(rm[0].args[1])
+                            # an enumeration without a context argument is accepted only where the removal is guarded to have none as well
+                            if len(en[0].args) == 1 and same_obj:
+                                same_ctx = True
+                            oks = same_obj and same_ctx
+                            rep.ob("C18.e-wildcards-expanded", mod, where, "enumeration %s vs removal %s" % (norm(en[0])[:60], norm(rm[0])[:50]), oks,
+                                   "the triples logged are those the removing store reports for that context" if oks else
+                                   "the undo entries are enumerated from %s but the removal is done by %s: the two can differ (a ConjunctiveGraph context enumerates the union of all graphs), "
+                                   "rollback then re-adds triples that were never removed" % (norm(en[0])[:70], norm(rm[0])[:60]), node=en[0])
+                    if not (loop is not None and _h.enumeration_calls(loop.iter)):
+                        unguarded_appends.append(ap)
+                else:
+                    okg = guarded(ap) and trip == comps
+                    if not guarded(ap):
+                        unguarded_appends.append(ap)
+                    rep.ob("C18.e-wildcards-expanded", mod, where, ap, okg,
+                           "concrete entry %s follows the presence guard" % trip if okg else
+                           "concrete-branch log entry %s is not dominated by a presence guard that returns on a no-op" % trip, node=ap)
+                # ctx id provenance (h): the fourth component is the identifier of a context: <ctx>.identifier of the context the enumeration reports, or the identifier
+                # of the context passed on, read where that context is known not to be None.  A local stands for what is assigned to it (every assignment, transitively;
+                # `if T: x = A else: x = B` is the value `A if T else B`).
+                ctx_node = alt[3]
+                ctx_expr = norm(ctx_node)
+                leaves = _h.leaf_definitions(m, ctx_node)
+                badl = []
+                for lf in leaves:
+                    if isinstance(lf, ast.Attribute) and lf.attr == "identifier":
+                        continue
+                    good, total = _h.guarded_identifier_reads(lf)
+                    if not (total and good == total):
+                        badl.append(norm(lf)[:60])
+                okc = not badl
+                rep.ob("C18.h-logged-quad-is-mutated-quad", mod, where, "logged context id %s" % ctx_expr, okc,
+                       "derived from the context's identifier" if okc else "logged context id %s is not the identifier of the context passed on%s" % (
+                           ctx_expr, "" if badl == [ctx_expr] else " (it can be %s)" % "; ".join(badl)), node=ap)
         if not appends:
             # the obligations above are per undo entry: a method in which no entry is written has none, and must not pass for that reason
-            rep.ob("C18.h-logged-quad-is-mutated-quad", mod, "%s.%s" % (CLS, mname), "undo entries of %s" % mname, False,
+            rep.ob("C18.h-logged-quad-is-mutated-quad", mod, where, "undo entries of %s" % mname, False,
                    "no undo entry is written in %s itself: the quad that is logged cannot be related to the quad that is mutated" % mname, node=m)
-        # guard precedes all log updates on the concrete branch / in add
-        for gd in guards:
-            gn = g.by_ast[id(gd)]
-            rep.ob("C18.a-mutation-is-logged", mod, "%s.%s" % (CLS, mname), gd.test, True, "no-op guard returns before logging", node=gd)
-        if not guards:
-            # without a guard a no-op must not be logged either: true when every log update is made for a quad that an enumeration of the wrapped store
-            # has just reported (an absent triple is not enumerated, so nothing is logged for it)
-            def _enumerated(call: ast.AST) -> bool:
-                encl = next((p for p in mod.parents(call) if isinstance(p, (ast.For, ast.FunctionDef))), None)
-                return isinstance(encl, ast.For) and any(isinstance(c, ast.Call) and isinstance(c.func, ast.Attribute) and c.func.attr in ("triples", "quads") for c in ast.walk(encl.iter))
-            all_enum = bool(appends) and all(_enumerated(ap) for ap in appends)
-            rep.ob("C18.a-mutation-is-logged", mod, "%s.%s" % (CLS, mname), "presence guard", all_enum,
+        # a no-op must not be logged: every log entry is written either behind a presence guard (the edge on which the wrapped store reports the triple does not reach it), or
+        # for a quad that an enumeration of the wrapped store has just reported (an absent triple is not enumerated, so nothing is logged for it)
+        seen_guards = set()
+        for site in appends:
+            for st_, atom, pol, calls in ptests:
+                if id(st_) not in seen_guards and asks_about_the_triple(calls) and guarded(site.call):
+                    seen_guards.add(id(st_))
+                    rep.ob("C18.a-mutation-is-logged", mod, where, st_.test, True, "no-op guard: a triple the wrapped store reports is not logged", node=st_)
+        if not seen_guards:
+            all_enum = bool(appends) and all(s.entry is not None for s in appends) and not unguarded_appends
+            rep.ob("C18.a-mutation-is-logged", mod, where, "presence guard", all_enum,
                    "every log entry is written for a quad the wrapped store has just reported: a no-op leaves none" if all_enum else
                    "no presence guard: a no-op %s leaves a log entry that rollback replays" % mname, node=m)
 
@@ -551,23 +594,26 @@ def run(repo: Repo, rep: Report) -> None:  # noqa: F811
              "the presence guards of add/remove ask the wrapped store about the triple IN THE GIVEN CONTEXT (the triples() call of the guard passes the context), and the test "
              "that sends remove() down the concrete single-quad branch also requires the context to be given (context None means `every graph`, i.e. a wildcard): otherwise a triple "
              "present in another graph makes add() a no-op, and remove((s,p,o), None) logs one entry with context None that rollback replays into a fresh blank-node graph", floor=2)
+    log, wrapped = _anchors(methods)
+    class_of = _class_lookup(repo, mod)
     for mname in ("add", "remove"):
         f = methods[mname]
         ctx = f.args.args[2].arg
-        for n in own_nodes(f):
-            if isinstance(n, ast.If) and any(isinstance(r, ast.Return) for r in n.body) and len(n.body) == 1:
-                calls = [c for c in ast.walk(n.test) if isinstance(c, ast.Call) and isinstance(c.func, ast.Attribute) and c.func.attr == "triples"]
-                for c in calls:
-                    passes = any(norm(a) == ctx for a in c.args[1:]) or any(norm(k.value) == ctx for k in c.keywords)
-                    rep.ob("C18.j-guards-and-branch-tests-see-the-context", mod, "AuditableStore." + mname, c, passes,
-                           "asks about the given context" if passes else "the presence guard ignores the context: the triple being in ANY graph decides whether the operation on %s is a no-op" % ctx, node=c)
+        # every test of the method whose truth tells whether the store reports the triple (`if list(..triples(..))`, `if not ..`, a flag variable, next(.., None) is None, ...)
+        for n, atom, pol, calls in _h.presence_tests(f):
+            for c in calls:
+                passes = any(norm(a) == ctx for a in c.args[1:]) or any(norm(k.value) == ctx for k in c.keywords)
+                rep.ob("C18.j-guards-and-branch-tests-see-the-context", mod, "AuditableStore." + mname, c, passes,
+                       "asks about the given context" if passes else "the presence guard ignores the context: the triple being in ANY graph decides whether the operation on %s is a no-op" % ctx, node=c)
     f = methods["remove"]
     ctx = f.args.args[2].arg
     wild = [n for n in own_nodes(f) if isinstance(n, ast.If) and isinstance(n.test, ast.Compare) and isinstance(n.test.left, ast.Constant) and n.test.left.value is None and isinstance(n.test.ops[0], ast.In) and n.orelse]
     if not wild:
         # no single-quad shortcut at all: every removal is logged from an enumeration of the wrapped store (checked by C18.e), there is no branch test to get wrong
-        if not any(isinstance(n, ast.For) and any(isinstance(c, ast.Call) and isinstance(c.func, ast.Attribute) and c.func.attr in ("triples", "quads") for c in ast.walk(n.iter)) for n in own_nodes(f)):
-            raise AnalysisError("AuditableStore.remove: neither a wildcard branch test nor an enumeration of the wrapped store found")
+        sites = [s_ for s_ in _h.log_sites(mod, f, log, _h.Entries(mod, f, class_of)) if s_.kind == "append"]
+        fed = [x for s_ in sites for alt in s_.alts for x in alt[:3] if isinstance(x, ast.Name)]
+        if not any(b is not None and _h.enumeration_calls(b.iter) for b in (_h.binder_of(mod, f, x) for x in fed)):
+            raise AnalysisError("AuditableStore.remove: neither a wildcard branch test nor an enumeration of the wrapped store that feeds the undo log found")
         rep.ob("C18.j-guards-and-branch-tests-see-the-context", mod, "AuditableStore.remove", "no single-quad branch", True,
                "every removal, fully specified or not, is logged from what the wrapped store reports for the pattern and the context", node=f)
     for n in wild:
@@ -616,8 +662,7 @@ def run(repo: Repo, rep: Report) -> None:  # noqa: F811
     mod = repo.mod("rdflib.plugins.stores.auditable")
     CLS = "AuditableStore"
     methods = mod.methods(CLS)
-    log = rep.info["undo_log_attribute"]
-    wrapped = rep.info["wrapped_store_attribute"]
+    log, wrapped = _anchors(methods)
     init = methods["__init__"]
     store_param = init.args.args[1].arg
     typed = repo.typed
@@ -662,43 +707,48 @@ def run(repo: Repo, rep: Report) -> None:  # noqa: F811
             ctor_refuses = True
         if isinstance(n, ast.Assert) and any(isinstance(x, ast.Attribute) and x.attr == "context_aware" for x in ast.walk(n.test)):
             ctor_refuses = True
+    class_of = _class_lookup(repo, mod)
     for mname in ("add", "remove"):
         f = methods[mname]
         seen_keys: set[str] = set()
-        for c in own_nodes(f):
-            if not (_is_log_call(c, log) and c.args and isinstance(c.args[0], ast.Tuple) and len(c.args[0].elts) == 5):
+        # the entries of every log update, component by component, however the entry is spelt; where the components come out of a loop over rows that comprehensions
+        # build, one alternative per comprehension (vlib/h_c18.LogSite): one obligation per (method, distinct context component of an alternative)
+        for site in _h.log_sites(mod, f, log, _h.Entries(mod, f, class_of)):
+            if site.entry is None or len(site.entry.elts) != 5:
                 continue
-            comp = c.args[0].elts[3]
-            if norm(comp) in seen_keys:
-                continue
-            seen_keys.add(norm(comp))
-            ok, why = False, ""
-            # a local stands for what is assigned to it (every assignment, transitively): `cid = ctx.identifier` in the enumeration loop and the entry (.., cid, ..)
-            # is the same key as the entry (.., ctx.identifier, ..)
-            leaves = _h.leaf_definitions(f, comp)
-            derived: list[ast.expr] = []
-            reported: list[str] = []
-            for lf in leaves:
-                b = _h.chain_base(lf)
-                lp = _loop_binding(mod, f, lf if lf is not comp else c, b) if b is not None else None
-                if lp is not None and any(_self_attr(x, wrapped) for x in ast.walk(lp.iter)):
-                    reported.append(norm(lp.iter)[:60])
+            c = site.call
+            for alt in site.alts:
+                comp = alt[3]
+                if norm(comp) in seen_keys:
+                    continue
+                seen_keys.add(norm(comp))
+                ok, why = False, ""
+                # a local stands for what is assigned to it (every assignment, transitively): `cid = ctx.identifier` in the enumeration loop and the entry (.., cid, ..)
+                # is the same key as the entry (.., ctx.identifier, ..)
+                leaves = _h.leaf_definitions(f, comp)
+                derived: list[ast.expr] = []
+                reported: list[str] = []
+                for lf in leaves:
+                    base_name = next((x for x in ast.walk(lf) if isinstance(x, ast.Name) and x.id == _h.chain_base(lf)), None) if _h.chain_base(lf) is not None else None
+                    lp = _h.binder_of(mod, f, base_name) if base_name is not None else None
+                    if lp is not None and any(_self_attr(x, wrapped) for x in ast.walk(lp.iter)):
+                        reported.append(norm(lp.iter)[:60])
+                    else:
+                        derived.append(lf)
+                if not derived:
+                    ok, why = True, "the context the wrapped store itself reports for the quad (%s)" % "; ".join(sorted(set(reported)))
+                elif ctor_refuses:
+                    ok, why = True, "__init__ refuses a store that is not context aware"
                 else:
-                    derived.append(lf)
-            if not derived:
-                ok, why = True, "the context the wrapped store itself reports for the quad (%s)" % "; ".join(sorted(set(reported)))
-            elif ctor_refuses:
-                ok, why = True, "__init__ refuses a store that is not context aware"
-            else:
-                # the tests a definition sits under count as consulted by it (`if ... and self.context_aware: key = ctx.identifier`)
-                tests = [p.test for v in derived if v is not comp for p in mod.parents(v) if isinstance(p, ast.If)]
-                reads = any(flag_is_wrapped_stores(v) for v in derived + tests)
-                none_arm = any(has_none_arm(v) for v in derived)
-                ok = reads and none_arm
-                why = "collapses to None when the wrapped store is not context aware" if ok else (
-                    "the key's context component %s is the identifier of whatever graph the call came through, whether or not the wrapped store distinguishes graphs: "
-                    "over a store with context_aware=False an add through one graph and a remove of the same triple through another leave two contradictory undo entries" % norm(comp))
-            rep.ob("C18.k-log-key-is-the-wrapped-stores-quad", mod, "%s.%s" % (CLS, mname), "context component %s of the log key" % norm(comp), ok, why, node=c)
+                    # the tests a definition sits under count as consulted by it (`if ... and self.context_aware: key = ctx.identifier`)
+                    tests = [p.test for v in derived if v is not comp for p in mod.parents(v) if isinstance(p, ast.If)]
+                    reads = any(flag_is_wrapped_stores(v) for v in derived + tests)
+                    none_arm = any(has_none_arm(v) for v in derived)
+                    ok = reads and none_arm
+                    why = "collapses to None when the wrapped store is not context aware" if ok else (
+                        "the key's context component %s is the identifier of whatever graph the call came through, whether or not the wrapped store distinguishes graphs: "
+                        "over a store with context_aware=False an add through one graph and a remove of the same triple through another leave two contradictory undo entries" % norm(comp))
+                rep.ob("C18.k-log-key-is-the-wrapped-stores-quad", mod, "%s.%s" % (CLS, mname), "context component %s of the log key" % norm(comp), ok, why, node=c)
 
     # ------------------------------------------------------------------ (l)
     # Graph(store, None) is not `no context`: Graph.__init__ mints a fresh blank-node name for it.  add/remove write None into the log (operation without a context,
@@ -892,8 +942,7 @@ def run(repo: Repo, rep: Report) -> None:  # noqa: F811
     mod = repo.mod("rdflib.plugins.stores.auditable")
     CLS = "AuditableStore"
     methods = mod.methods(CLS)
-    log = rep.info["undo_log_attribute"]
-    wrapped = rep.info["wrapped_store_attribute"]
+    log, wrapped = _anchors(methods)
     init = methods["__init__"]
     store_param = init.args.args[1].arg
     typed = repo.typed
@@ -988,28 +1037,29 @@ def run(repo: Repo, rep: Report) -> None:  # noqa: F811
         if mname == "remove" and not any(_is_log_call(c, log) for c in own_nodes(f)):
             raise AnalysisError("AuditableStore.remove no longer updates the undo log self.%s" % log)
         tainted = _h.pattern_tainted(f, f.args.args[1].arg)
-        for c in own_nodes(f):
-            if not (_is_log_call(c, log) and c.args):
-                continue
-            entry = c.args[0]
-            if not (isinstance(entry, ast.Tuple) and len(entry.elts) >= 4):
+        for site in _h.log_sites(mod, f, log, _h.Entries(mod, f, _class_lookup(repo, mod))):
+            c = site.call
+            if site.entry is None or len(site.entry.elts) < 4:
                 continue  # not the (s, p, o, ctx, tag) layout: C18.b reports it
-            bad = []
-            for pos in entry.elts[:3]:
-                names_ = [x for x in ast.walk(pos) if isinstance(x, ast.Name)]
-                if not names_:
-                    bad.append("%s is not a value the wrapped store reported" % norm(pos))
-                    continue
-                for x in names_:
-                    lp = _h.enclosing_binding_loop(mod, f, c, x.id)
-                    if lp is not None and any(_h.self_attr(y, wrapped) or (isinstance(y, ast.Call) and _h.self_attr(y.func) and y.func.attr in ("triples", "quads"))
-                                              for y in ast.walk(lp.iter)):
+            # one obligation per row the entry can stand for (a loop over rows built by comprehensions: the row expressions of each comprehension)
+            for alt in site.alts:
+                bad = []
+                for pos in alt[:3]:
+                    names_ = [x for x in ast.walk(pos) if isinstance(x, ast.Name)]
+                    if not names_:
+                        bad.append("%s is not a value the wrapped store reported" % norm(pos))
                         continue
-                    if x.id in tainted:
-                        bad.append("%s is a component of the pattern parameter %s" % (x.id, f.args.args[1].arg))
-                    else:
-                        bad.append("%s is not bound by an enumeration of the wrapped store" % x.id)
-            rep.ob("C18.o-undo-entries-are-reported-triples-not-the-pattern", mod, "%s.%s" % (CLS, mname), c, not bad,
-                   "the entry's triple is one the wrapped store enumerated for the pattern" if not bad else
-                   "%s: the undo entry describes the pattern, not what the wrapped store removes for it - a term the wrapped store interprets itself (REGEXTerm of the "
-                   "REGEXMatching store) is logged as if it were the one triple removed, rollback() adds the pattern as a triple and restores nothing" % "; ".join(bad), node=c)
+                    for x in names_:
+                        lp = _h.binder_of(mod, f, x)
+                        if lp is not None and any(_h.self_attr(y, wrapped) or (isinstance(y, ast.Call) and _h.self_attr(y.func) and y.func.attr in ("triples", "quads"))
+                                                  for y in ast.walk(lp.iter)):
+                            continue
+                        if x.id in tainted:
+                            bad.append("%s is a component of the pattern parameter %s" % (x.id, f.args.args[1].arg))
+                        else:
+                            bad.append("%s is not bound by an enumeration of the wrapped store" % x.id)
+                rep.ob("C18.o-undo-entries-are-reported-triples-not-the-pattern", mod, "%s.%s" % (CLS, mname),
+                       c if len(site.alts) == 1 else "%s for %s" % (norm(c)[:80], "/".join(norm(x) for x in alt[:4])[:60]), not bad,
+                       "the entry's triple is one the wrapped store enumerated for the pattern" if not bad else
+                       "%s: the undo entry describes the pattern, not what the wrapped store removes for it - a term the wrapped store interprets itself (REGEXTerm of the "
+                       "REGEXMatching store) is logged as if it were the one triple removed, rollback() adds the pattern as a triple and restores nothing" % "; ".join(bad), node=c)
